@@ -27,8 +27,8 @@ ASSUMPTIONS = [
     'literal blocks are compared after textwrap.dedent (epytext keeps the source indentation, reST removes it: both reproduce every character)',
 ]
 FLOOR = {'quick': 2000, 'thorough': 20000}
-SPACE = {'quick': 'documents <= 2 blocks x (no field | 17 single fields) x 4 markup formats; plaintext documents; class/module variable fields',
-         'thorough': 'documents <= 3 blocks x (no field | single fields); <= 2 blocks x all ordered pairs of fields'}
+SPACE = {'quick': 'documents <= 2 blocks x (no field | 17 single fields) x 4 markup formats; plaintext documents; class/module variable fields; code blocks: all sequences <= 2 lines over an 18-line code alphabet / 27-line doctest alphabet (one line per highlighter class and whitespace variant) x 6 hosts; exact field text: 15 punctuation-led descriptions x every field form of each format (incl. reST consolidated bullet / definition-list fields); 3 punctuation paragraphs x 4 formats',
+         'thorough': 'documents <= 3 blocks x (no field | single fields); <= 2 blocks x all ordered pairs of fields; doctest blocks <= 3 lines'}
 JOB_TIMEOUT = 2300
 
 
@@ -219,8 +219,9 @@ def mk(fmt: str) -> Any:
 
 def install(s: Any, obj: Any, doc: str) -> None:
     """Install the docstring as the real flow does: a triple-quoted literal in an indented body, text starting below the quotes."""
-    assert '"""' not in doc and '\\' not in doc
-    src = 'def f():\n    """\n' + ''.join(('    ' + l if l else '') + '\n' for l in doc.split('\n')) + '    """\n'
+    assert '\\' not in doc
+    lit = doc.replace('"""', '\\"\\"\\"')       # same string value, still one triple-quoted literal
+    src = 'def f():\n    """\n' + ''.join(('    ' + l if l else '') + '\n' for l in lit.split('\n')) + '    """\n'
     node = ast.parse(src).body[0].body[0].value
     obj.setDocstring(node)
     obj.parsed_docstring = None
@@ -388,6 +389,184 @@ def judge_varfields(fmt: str, res: Dict[str, Any]) -> None:
                     res['violations'].append(core.violation(f'variable-field-lost/{fmt}/{owner}/{tag}', f'{fmt}: {fld!r} on a {owner}: attribute {name} shows {shown!r}, nothing reported', case))
 
 
+
+# ---------------------------------------------------------------------------------------------------------------------
+# code hosts: every sequence of <= N lines from a line alphabet that has one member per class of the syntax highlighter
+# (keyword, builtin, string, comment, definition, prompt, continuation, traceback, output) and per whitespace variant,
+# hosted in an epytext doctest block, a reST doctest block, a reST code directive and the python directive.  The <pre>
+# shown must be the block, character for character.
+CODE = [
+    'def   twice(n):', 'class   Kw (Base):', 'async def  f(): pass', 'defx = classy + undef', 'x = "a  string"  # comment   here', "s = 'it' 'is'",
+    'print(len(x)) ; y.len ; lens', 'for i in range(3): pass', '@decorator', 'return None', 'x = """triple  quoted"""', 'if a <b and c> d: pass',
+    'x = 1 # doctest: +SKIP', '    indented = True', 'a = "unterminated', "b = " + "'" * 3 + "open", 'class  K2:  pass  # class  K3', 'n = 1_000 + 0x1F  -  2',
+]
+OUTPUT = ['w9001 w9002', 'Traceback (most recent call last):', '  File "<stdin>", line 1, in  <module>', 'ValueError: bad  value', '<BLANKLINE>', "['a',  'b']", 'def   not_code(): 3']
+HOST_FMT = {'epytext-doctest': 'epytext', 'rst-doctest': 'restructuredtext', 'rst-code': 'restructuredtext', 'rst-python': 'restructuredtext',
+            'google-doctest': 'google', 'numpy-doctest': 'numpy'}
+CODE_HOSTS = tuple(HOST_FMT)
+
+
+def code_cases(n: int) -> Iterable[Tuple[str, ...]]:
+    """code blocks: all sequences of <= n code lines"""
+    for c in CODE:
+        yield ('code', c)
+    if n >= 2:
+        for c in CODE:
+            for d in CODE:
+                yield ('code', c, d)
+
+
+def doctest_cases(n: int, host: str = '') -> Iterable[Tuple[str, ...]]:
+    """doctest blocks: '>>> c1' then each of ('... c2' | '>>> c2' | output); epytext starts a doctest block at '>>> ' only, reST also at a bare '>>>'"""
+    first = [f'>>> {c.strip()}' for c in CODE] + ([] if host.startswith('epytext') else ['>>>']) + ['>>>  two = 2']
+    second = [f'...     {c.strip()}' for c in CODE[:8]] + ['...'] + [f'>>> {c.strip()}' for c in CODE[:8]] + OUTPUT
+    for a in first:
+        yield ('doctest', a)
+        if n >= 2:
+            for b in second:
+                yield ('doctest', a, b)
+    if n >= 3:
+        for a in first[:6]:
+            for b in second:
+                for c in second:
+                    yield ('doctest', a, b, c)
+
+
+def classify_lines(lines: Sequence[str]) -> str:
+    out = []
+    for l in lines:
+        body = re.sub(r'^(>>>|\.\.\.) ?', '', l)
+        k = 'prompt1' if l.startswith('>>>') else 'prompt2' if l.startswith('...') else 'plain'
+        tok = ('def' if re.search(r'\b(def|class)\s', body) else 'string' if re.search(r'["\']', body) else 'comment' if '#' in body else
+               'traceback' if body.startswith('Traceback') else 'other')
+        out.append(f'{k}.{tok}')
+    return '+'.join(out)
+
+
+def judge_code(s: Any, host: str, lines: Sequence[str], res: Dict[str, Any]) -> None:
+    from pydoctor import epydoc2stan
+    from pydoctor.stanutils import flatten
+    f = s.allobjects['m.f']
+    w = W()
+    t1, t2 = w(), w()
+    block = list(lines)
+    directive = host in ('rst-code', 'rst-python')
+    if directive:
+        text = '\n'.join([t1, '', '.. code:: python' if host == 'rst-code' else '.. python::', ''] + ['    ' + l for l in block] + ['', t2])
+    else:
+        text = '\n'.join([t1, ''] + block + ['', t2])
+    res['evals'] += 1
+    res['nontrivial'].add(core.h('code', host, tuple(lines)))
+    case = {'kind': 'code', 'host': host, 'lines': list(lines)}
+    install(s, f, text)
+    h = flatten(epydoc2stan.format_docstring(f))
+    msgs = [m for sec, m, th in s.messages if th < 0]
+    pres = [strip_tags(p) for p in re.findall(r'<pre[^>]*>(.*?)</pre>', h, flags=re.S)]
+    want = textwrap.dedent('\n'.join(block)).strip('\n') if directive else '\n'.join(block)
+    got = [textwrap.dedent(p).strip('\n') if directive else p.strip('\n') for p in pres]
+    res['outcomes'].add((host, len(pres), bool(msgs)))
+    cls = classify_lines(lines)
+    if any('bad docstring' in m for m in msgs):
+        res['violations'].append(core.violation(f'parse-error-on-code-block/{host}/{cls}', f'{host}: {msgs[0][:150]!r} on\n{text}', case))
+        return
+    if want not in got:
+        res['violations'].append(core.violation(f'code-not-exact/{host}/{cls}', f'{host}: block {want!r} shown as {got!r}\n{text}', case))
+        return
+    outside = strip_tags(re.sub(r'<pre[^>]*>.*?</pre>', ' ', h, flags=re.S)).split()
+    if outside != [t1, t2]:
+        res['violations'].append(core.violation(f'code-surroundings/{host}/{cls}', f'{host}: text around the block shown as {outside!r}\n{text}', case))
+
+
+# ---------------------------------------------------------------------------------------------------------------------
+# exact field text: descriptions whose first / last characters are the separators the field parsers themselves use
+DESCS = ['{w}', '-1 {w} {w2}', ':{w}: or {w2}', '({w})', '{w}, {w2}; {w3}.', '"{w}" <&> {w2}', '{w} - {w2} : {w3}', '--{w} {w2}', '{w}: {w2}', ': {w}', '-- {w}',
+         '{w} {w2}:', '- {w}', '{w} -', "{w}'s {w2}"]
+EXACT_FIELDS = {
+    'epytext': {'param': '@param a: {D}', 'return': '@return: {D}', 'raise': '@raise ValueError: {D}', 'keyword': '@keyword k: {D}', 'note': '@note: {D}',
+                'param-cont': '@param a: {w}\n    {D}'},
+    'restructuredtext': {'param': ':param a: {D}', 'return': ':return: {D}', 'raise': ':raise ValueError: {D}', 'keyword': ':keyword k: {D}', 'note': ':note: {D}',
+                         'param-cont': ':param a: {w}\n    {D}',
+                         'cons-colon': ':Parameters:\n    - `a`: {D}\n    - `kw`: {w}', 'cons-dash': ':Parameters:\n    - `a` - {D}\n    - `kw` - {w}',
+                         'cons-spacecolon': ':Parameters:\n    - `a` : {D}', 'cons-second': ':Parameters:\n    - `kw`: {w}\n    - `a`: {D}',
+                         'cons-exceptions': ':Exceptions:\n    - `ValueError`: {D}', 'cons-keywords': ':Keywords:\n    - `k`: {D}',
+                         'cons-deflist': ':Parameters:\n    `a` : int\n        {D}'},
+    'google': {'param': 'Args:\n    a: {D}', 'return': 'Returns:\n    {D}', 'raise': 'Raises:\n    ValueError: {D}', 'keyword': 'Keyword Args:\n    k: {D}',
+               'param-typed': 'Args:\n    a (int): {D}', 'param-cont': 'Args:\n    a: {w}\n        {D}'},
+    'numpy': {'param': 'Parameters\n----------\na\n    {D}', 'return': 'Returns\n-------\nint\n    {D}', 'raise': 'Raises\n------\nValueError\n    {D}',
+              'keyword': 'Other Parameters\n----------------\nk\n    {D}', 'param-typed': 'Parameters\n----------\na : int\n    {D}', 'param-cont': 'Parameters\n----------\na\n    {w}\n    {D}'},
+}
+EXACT_HOME = {'param': ('Parameters', 'a'), 'param-cont': ('Parameters', 'a'), 'param-typed': ('Parameters', 'a'), 'return': ('Returns', None), 'raise': ('Raises', 'ValueError'),
+              'keyword': ('Parameters', 'k'), 'note': ('Note', None), 'cons-colon': ('Parameters', 'a'), 'cons-dash': ('Parameters', 'a'), 'cons-spacecolon': ('Parameters', 'a'),
+              'cons-second': ('Parameters', 'a'), 'cons-exceptions': ('Raises', 'ValueError'), 'cons-keywords': ('Parameters', 'k'), 'cons-deflist': ('Parameters', 'a')}
+
+
+def norm(t: str) -> str:
+    return ' '.join(t.split())
+
+
+def judge_exact_field(s: Any, fmt: str, fld: str, di: int, res: Dict[str, Any]) -> None:
+    from pydoctor import epydoc2stan
+    from pydoctor.stanutils import flatten
+    f = s.allobjects['m.f']
+    w = W()
+    lead = w()
+    desc, _ = fmt_field(DESCS[di], w)
+    text, _ = fmt_field(EXACT_FIELDS[fmt][fld].replace('{D}', desc), w)
+    doc = f'{lead}\n\n{text}\n'
+    res['evals'] += 1
+    res['nontrivial'].add(core.h('exact-field', fmt, fld, di))
+    case = {'kind': 'exact-field', 'fmt': fmt, 'fld': fld, 'desc': di}
+    install(s, f, doc)
+    h = flatten(epydoc2stan.format_docstring(f))
+    msgs = [m for sec, m, th in s.messages if th < 0]
+    res['outcomes'].add((fmt, 'exact-field', bool(msgs)))
+    words = re.findall(r'w\d{4}', doc)
+    shown_all = strip_tags(h)
+    lost = [t for t in words if t not in shown_all]
+    if lost:
+        res['violations'].append(core.violation(f'field-words-lost/{fmt}/{fld}/d{di}', f'{fmt}: {lost} not shown; reported {msgs[:2]}\n{doc}', case))
+        return
+    if msgs:
+        return      # the host markup gives the description another meaning and says so
+    _, _, table = h.partition('<table class="fieldTable">')
+    heading, arg = EXACT_HOME[fld]
+    rows = [r for hd, rows_ in table_sections(table) if hd == heading for r in rows_]
+    if arg:
+        rows = [r for r in rows if re.sub(r'[:\s(].*', '', r[0].strip()) == arg]
+    cells = [norm(d) for a, d in rows]
+    want = norm(desc)
+    if fld.endswith('-cont'):
+        want = norm(re.findall(r'w\d{4}', text)[0] + ' ' + desc)
+    # the description is itself block markup of the host (a bullet list), or 'type: description' in a napoleon Returns / Raises section:
+    # its punctuation is markup by the grammar of the format, only the words are compared (all of them are on the page, checked above)
+    if desc.startswith('- ') or (fmt in ('google', 'numpy') and fld in ('return', 'raise') and ':' in desc):
+        return
+    if want not in cells:
+        res['violations'].append(core.violation(f'field-text-not-exact/{fmt}/{fld}/d{di}', f'{fmt}: field {fld} description {want!r} shown as {cells!r}\n{doc}', case))
+
+
+PUNCT_PARAS = ['{w} - {w2}: ({w3}), "{w4}"; -1 {w5} <&> {w6} ... {w7}!', '{w}, e.g. -{w2} or :{w3}: and {w4}:{w5} / {w6}--{w7}', "{w}'s ({w2}) [{w3}] #{w4} %{w5} ${w6} ^{w7}"]
+
+
+def judge_punct_para(s: Any, fmt: str, pi: int, res: Dict[str, Any]) -> None:
+    from pydoctor import epydoc2stan
+    from pydoctor.stanutils import flatten
+    f = s.allobjects['m.f']
+    w = W()
+    lead = w()
+    p, _ = fmt_field(PUNCT_PARAS[pi], w)
+    tail = w()
+    doc = f'{lead}\n\n{p}\n\n{tail}\n'
+    res['evals'] += 1
+    res['nontrivial'].add(core.h('punct', fmt, pi))
+    case = {'kind': 'punct', 'fmt': fmt, 'para': pi}
+    install(s, f, doc)
+    h = flatten(epydoc2stan.format_docstring(f))
+    shown = norm(strip_tags(h))
+    if shown != norm(f'{lead} {p} {tail}'):
+        res['violations'].append(core.violation(f'paragraph-text-not-exact/{fmt}/p{pi}', f'{fmt}: {doc!r} shown as {shown!r}', case))
+
+
 def jobs(tier: str) -> Iterable[Tuple[str, Any]]:
     N = 2 if tier == 'quick' else 3
     names = list(BLOCKS)
@@ -396,6 +575,10 @@ def jobs(tier: str) -> Iterable[Tuple[str, Any]]:
             yield (f'blocks<=2:single-fields', ('docs', fmt, first, 2, 'single'))
         yield ('variable-fields', ('varfields', fmt))
     yield ('plaintext', ('plain',))
+    for host in CODE_HOSTS:
+        yield ('code-lines', ('code', host, 'code' if host in ('rst-code', 'rst-python') else 'doctest'))
+    for fmt in EXACT_FIELDS:
+        yield ('exact-field-text', ('exact', fmt))
     if N >= 3:
         for fmt in ('epytext', 'restructuredtext', 'google', 'numpy'):
             for first in names:
@@ -438,6 +621,20 @@ def run_job(job: Any, tier: str) -> Dict[str, Any]:
                     judge(s, fmt, (first, second, third), fields, res)
     elif job[0] == 'varfields':
         judge_varfields(job[1], res)
+    elif job[0] == 'code':
+        _, host, kind = job
+        s = mk(HOST_FMT[host])
+        n = 2 if tier == 'quick' else 3
+        for c in (code_cases(n) if kind == 'code' else doctest_cases(n, host)):
+            judge_code(s, host, c[1:], res)
+    elif job[0] == 'exact':
+        fmt = job[1]
+        s = mk(fmt)
+        for fld in EXACT_FIELDS[fmt]:
+            for di in range(len(DESCS)):
+                judge_exact_field(s, fmt, fld, di, res)
+        for pi in range(len(PUNCT_PARAS)):
+            judge_punct_para(s, fmt, pi, res)
     else:
         s = mk('plaintext')
         for combo in itertools.chain(((c,) for c in BLOCKS), itertools.product(list(BLOCKS)[:8], repeat=2)):
@@ -451,6 +648,12 @@ def replay(case: Dict[str, Any]) -> List[Dict[str, Any]]:
         judge(mk(case['fmt']), case['fmt'], case['blocks'], case['fields'], res)
     elif case['kind'] == 'plain':
         judge_plain(mk('plaintext'), case['blocks'], res)
+    elif case['kind'] == 'code':
+        judge_code(mk(HOST_FMT[case['host']]), case['host'], case['lines'], res)
+    elif case['kind'] == 'exact-field':
+        judge_exact_field(mk(case['fmt']), case['fmt'], case['fld'], case['desc'], res)
+    elif case['kind'] == 'punct':
+        judge_punct_para(mk(case['fmt']), case['fmt'], case['para'], res)
     else:
         judge_varfields(case['fmt'], res)
         res['violations'] = [v for v in res['violations'] if v['case'] == case]
